@@ -437,12 +437,13 @@ impl EventGen for IfElement {
             .0
             .get_attr("test")
             .ok_or_else(|| SvgdxError::MissingAttribute("test".to_owned()))?;
-        if let Some(inner_events) = self.0.inner_events(context) {
-            if eval_condition(&test, context)? {
-                // opening if element is not included in the processed inner events to avoid
-                // infinite recursion...
-                return process_events(inner_events.clone(), context);
-            }
+        // (the condition is evaluated - and must be well-formed - even if there
+        // is nothing inside the element)
+        let condition = eval_condition(&test, context)?;
+        if let (true, Some(inner_events)) = (condition, self.0.inner_events(context)) {
+            // opening if element is not included in the processed inner events to avoid
+            // infinite recursion...
+            return process_events(inner_events.clone(), context);
         }
 
         Ok((OutputList::new(), None))
